@@ -23,7 +23,10 @@ func (v otrV2) parameterLength() int {
 }
 
 func (v otrV2) isGroupElement(n *big.Int) bool {
-	return true
+	// version 2 does not range check SMP values, but a multiple of p is no
+	// group element under any reading: it turns every value derived from it
+	// into zero, and zero cannot be divided by
+	return mod(n, p).Sign() != 0
 }
 
 func (v otrV2) isFragmented(data []byte) bool {
